@@ -2,7 +2,7 @@
    the packet level.  No proofs here. *)
 From Coq Require Import ZArith List Bool.
 Import ListNotations.
-From V Require Import Base.Tree Base.Bytes Base.Parser Pkg.GenTypes Gen.GenPkg Pkg.Iface Pkg.Eed Pkg.All Rx.Model Rx.Consumer Rx.Transport Rx.WriteFail.
+From V Require Import Base.Tree Base.Bytes Base.Parser Pkg.GenTypes Gen.GenPkg Pkg.Iface Pkg.Fmts Pkg.Eed Pkg.All Rx.Model Rx.Consumer Rx.Transport Rx.WriteFail.
 Open Scope Z_scope.
 
 Definition packet_of_tree (t : tree) : packet_in :=
@@ -51,6 +51,15 @@ Fixpoint run_pkts_cont (need nenv : nat) (st : rxs) (ps0 : Z) (ps : list packet_
     let sz := size_after ps0 es in
     (es, sz) :: run_pkts_cont need nenv st1 sz r
   end.
+
+(* malformed streams (fn 15, fn 16): rows and parameters are shown by their number of fields only (a mutated type byte can
+   make a column of any type, and the harness can render values only by re-encoding them, which normalises some types) *)
+Definition blank_data (e : ev) : ev :=
+  match e with
+  | EvDeliver tok f => if (tok =? tok_row) || (tok =? tok_params) then EvDeliver tok (TL [TI (zlen (t_list f))]) else e
+  | _ => e
+  end.
+Definition blank_out (o : list (list ev * Z)) : list (list ev * Z) := map (fun x => (map blank_data (fst x), snd x)) o.
 
 Definition out_tree (o : list (list ev * Z)) : tree :=
   TL (map (fun x => TL [TL (map ev_tree (canon (fst x))); TI (snd x)]) o).
@@ -200,8 +209,11 @@ Definition rx_fn_run (fn : Z) (i : tree) : tree :=
     TL (run_rounds (Z.to_nat (t_int (t_nth 0 i))) (Z.to_nat (t_int (t_nth 1 i))) rx_init [] O (t_list (t_nth 2 i)))
   | 13 => writefail_run i
   | 15 =>
-    out_tree (run_pkts_cont (Z.to_nat (t_int (t_nth 0 i))) (Z.to_nat (t_int (t_nth 1 i))) rx_init (t_int (t_nth 2 i))
-                            (map packet_of_tree (t_list (t_nth 3 i))))
+    out_tree (blank_out (run_pkts_cont (Z.to_nat (t_int (t_nth 0 i))) (Z.to_nat (t_int (t_nth 1 i))) rx_init (t_int (t_nth 2 i))
+                                       (map packet_of_tree (t_list (t_nth 3 i)))))
+  | 16 =>
+    out_tree (blank_out (run_pkts (Z.to_nat (t_int (t_nth 0 i))) (Z.to_nat (t_int (t_nth 1 i))) rx_init (t_int (t_nth 2 i))
+                                  (map packet_of_tree (t_list (t_nth 3 i)))))
   | 14 =>
     let need := Z.to_nat (t_int (t_nth 0 i)) in
     let nenv := Z.to_nat (t_int (t_nth 1 i)) in
@@ -230,6 +242,8 @@ Definition rx_fn_spec (fn : Z) (i o : tree) : bool :=
     is_prefix_tree got want && is_prefix_tree wantk got && (length got =? length wantk)%nat && (t_int (t_nth 2 o) =? 1)
   | 12 => forallb (fun io => round_drained_ok (fst io) (snd io)) (combine (t_list (t_nth 2 i)) (t_list o))
   | 13 => writefail_spec i o
+  | 16 =>
+    negb (existsb (fun pk => existsb (fun e => tree_eqb e (TL [TI 7; TI (-1)])) (t_list (t_nth 0 pk))) (t_list o))
   | 15 =>
     (* C10 at the channel level: whatever follows a parse error, no packet makes the channel panic or block (event (7 -1)) *)
     negb (existsb (fun pk => existsb (fun e => tree_eqb e (TL [TI 7; TI (-1)])) (t_list (t_nth 0 pk))) (t_list o))
